@@ -167,10 +167,25 @@ class History:
     def query(self, xpos, ypos):
         if self.ended or self.grid is None:
             return
+        import warnings
+        import xarray as xr
+
         for axes, pos in ((("X",), (xpos,)), (("X", "Y"), (xpos, ypos))):
             slot = (frozenset(axes), pos)
             if slot in self.model:
                 self.check_slot(slot, self.model[slot], "get_metric lookup")
+            else:
+                # a lookup at a position nothing is registered for (answered by interpolation, or refused): reading must
+                # not write - the registry is what was registered
+                arr = xr.DataArray(np.zeros((self.ds.sizes[XPOS[xpos]], self.ds.sizes[YPOS[ypos]])), dims=[XPOS[xpos], YPOS[ypos]])
+                with warnings.catch_warnings():
+                    warnings.simplefilter("ignore")
+                    try:
+                        self.grid.get_metric(arr, axes)
+                    except Exception:  # noqa: BLE001
+                        pass
+                self.classes.add("query-at-free-position")
+                self.check_registry("after a lookup at a position nothing is registered for")
 
     def finish(self):
         """Replay the successful registrations one variable per call on a fresh Grid."""
